@@ -114,7 +114,8 @@ def c03(tier, seed):
                 **_seeds(seed + 90, k)) for k in range(2 if tier == "quick" else 8)]
         # ... nor a disabled debug node, in any execution mode of either flavour
         + [dict(kind="dbg", pid="C03", random_shapes=(60 if tier == "quick" else 600), nmax=7,
-                only=["debug_node_ran_with_flag_off(call)", "debug_node_ran_with_flag_off(executor)", "debug_node_ran_with_flag_off(setup)"],
+                only=["debug_node_ran_with_flag_off(call)", "debug_node_ran_with_flag_off(executor)", "debug_node_ran_with_flag_off(setup)",
+                      "pulled_in_debug_node_misses_an_input"],
                 **_seeds(seed + 82, k)) for k in range(1 if tier == "quick" else 4)]
         # ... nor is an already-set-up or already-cached node entered again by an execution restarted from a cache file
         + [dict(kind="cache18", pid="C03", n_cases=(250 if tier == "quick" else 1500), only=["restart_executed_set_wrong", "restart_recomputed_cached_nodes"],
